@@ -731,4 +731,6 @@ def run(ctx):
     # shared infrastructure this property leans on (rules/families.py): each member is the same rule instance as in its home property
     from rules import families as _fam
     _fam.reader(ctx, "C18")
-
+    # the stream reaches the caller's file where the directory says, wherever in the destination the dump starts (rules/families.py)
+    from rules import families as _famd
+    _famd.destination(ctx, "C18")
